@@ -3,6 +3,7 @@ package main
 import (
 	"fmt"
 	"go/ast"
+	"os"
 	"runtime"
 	"go/constant"
 	"go/token"
@@ -559,6 +560,12 @@ func (fr *FnRun) runFrom(st *State, b *ssa.BasicBlock, prev *ssa.BasicBlock, dep
 
 func (fr *FnRun) runBlock(st *State, b *ssa.BasicBlock, prev *ssa.BasicBlock, depth int, k retK) {
 	fn := b.Parent()
+	if n := len(st.stops); n > 0 && st.stops[n-1].block == b && st.stops[n-1].depth == depth {
+		rec := st.stops[n-1]
+		st.stops = st.stops[: n-1 : n-1]
+		rec.collect(st, prev)
+		return
+	}
 	if len(st.guards) > 0 {
 		var keep []*loopGuard
 		for _, g := range st.guards {
@@ -595,6 +602,10 @@ func (fr *FnRun) runBlock(st *State, b *ssa.BasicBlock, prev *ssa.BasicBlock, de
 				phiVals = append(phiVals, st.vals[ph]) // set by loopEnter
 				continue
 			}
+			if ov, ok := st.phiOverride[ph]; ok {
+				phiVals = append(phiVals, ov)
+				continue
+			}
 			idx := -1
 			for i, p := range b.Preds {
 				if p == prev {
@@ -609,6 +620,7 @@ func (fr *FnRun) runBlock(st *State, b *ssa.BasicBlock, prev *ssa.BasicBlock, de
 		for i, ph := range phis {
 			st.vals[ph] = phiVals[i]
 		}
+		st.phiOverride = nil
 		fr.runRest(st, b, b.Instrs[len(phis):], depth, k)
 		return
 	}
@@ -635,6 +647,9 @@ func (fr *FnRun) runRest(st *State, b *ssa.BasicBlock, rest []ssa.Instruction, d
 			}
 			if c.IsFalse() {
 				fr.runBlock(st, fb, b, depth, k)
+				return
+			}
+			if os.Getenv("GOVC_NOMERGE") == "" && fr.runIfMerged(st, b, c, depth, k) {
 				return
 			}
 			st2 := st.clone()
@@ -868,10 +883,6 @@ func (fr *FnRun) bindLocals(st *State, vars map[string]Val) {
 		var defined []ssa.Value
 		ambiguous := false
 		for _, c := range cands {
-			if _, isPhi := c.(*ssa.Phi); isPhi {
-				ambiguous = true
-				continue
-			}
 			if _, ok := st.vals[c]; ok {
 				defined = append(defined, c)
 			}
